@@ -106,6 +106,24 @@ inspected.  Case kinds:
          every name of the case, 4 = dump()-then-parse must resolve
          every name to the same paragraph as the live document and
          the model                       (M.build.order, M.build.find, M.build.reparse, M.match)
+  incr   documents built INCREMENTALLY through the Copyright API in which license SHORT NAMES (synopses) are SHARED: start
+         from Copyright() or from a parsed document (9 source kinds, 25% strict=False; Files and stand-alone License paragraphs
+         in any order, also License paragraphs only / the header only), then 3..8 (thorough 3..10) add_files_paragraph /
+         add_license_paragraph calls in mixed orders.  The short name of every new paragraph is drawn by its RELATION to the
+         document as it is at that point: that of an earlier Files paragraph, that of an earlier stand-alone License paragraph
+         (= the same License short name added twice; 40% of those with the identical text), that of both, or one the document
+         does not contain; forced shapes: License paragraphs (one short name twice) BEFORE any Files paragraph exists, then
+         Files paragraphs under those names; Files paragraph, then a License paragraph under ITS short name, then a later Files
+         paragraph under it too, then that License short name once more.  Half of the Files paragraphs that share a short name
+         with an earlier one also share its Copyright text; 30% carry the license text themselves; 20% of the headers name one
+         of the licenses too.  Every paragraph carries its unique id in a Comment field.  At the start (parsed) and after
+         EVERY add: all_paragraphs() = what it showed before + exactly the new paragraph (nothing dropped, replaced or
+         re-ordered; files tuples intact), all_files_paragraphs() / all_license_paragraphs() = its Files / License paragraphs in
+         its order, a new Files paragraph behind every earlier Files paragraph; find_files_paragraph for every name against the
+         last-match rule over all Files paragraphs (+ every paragraph's matches(), once per history); dump() (returned /
+         written to a file object) then parse, default AND strict=False (6 source kinds): same Files paragraphs (id, files
+         tuple), same License paragraphs, same resolution of every name
+                                 (M.incr.start, M.incr.step, M.incr.find, M.incr.reparse, M.incr.reparse.find, M.match)
 
 Build histories are judged after every query step against the document AS IT
 IS NOW.  Shapes forced by the generator: queries on a document without any
@@ -163,6 +181,20 @@ Mutants of this class tried on a scratch copy (repo tests still 234 passed):
   add_files_paragraph uses a last-Files index never updated      caught (files-paragraph-order-differs-from-documented-insertion)
   add_files_paragraph appends behind the License paragraphs      NOT a C16 violation (same Files order, same resolution):
                                                                  recorded as build:note:* / build_notes in the evidence
+
+Unchanged tree, incremental builds with shared license short names (probed before the class was added): add_license_paragraph
+appends, add_files_paragraph inserts behind the last Files paragraph (at position 0 of a document with License paragraphs only),
+neither looks at any License field; dump() writes every paragraph; the workload is silent on it.
+Mutants of the class (repo tests still 234 passed), all exit 1, none seen by the other classes of this module (their License
+paragraphs are 'M1' 'M2' .. / 'L0' 'L1' .., never the short name of another paragraph):
+  add_license_paragraph replaces the stand-alone paragraph of the same short name    add-drops-or-replaces-existing-paragraph/add_license_paragraph
+  add_files_paragraph stops looking for the last Files paragraph at the stand-alone
+        License paragraph that carries its short name (parsed starts)               files-paragraph-order-differs-from-documented-insertion
+  add_files_paragraph extends the last Files paragraph when holder and license agree add-does-not-add-exactly-one-paragraph/add_files_paragraph
+  all_license_paragraphs() goes through a dict keyed by short name                  all_license_paragraphs-disagrees-with-all_paragraphs
+  dump() writes a stand-alone license short name once                               dumped-document-has-different-license-paragraphs
+  Copyright(sequence) skips a License paragraph whose short name it has seen         paragraphs-of-parsed-document-with-shared-license-short-name-differ-..
+                                                                                    + dumped-document-has-different-license-paragraphs
 """
 import io
 import itertools
@@ -222,7 +254,20 @@ RULE = ('Seeded pattern lists (1..3, thorough 1..4 patterns of 1..5, thorough 1.
         'query steps - paragraph order, find_files_paragraph for 3..7 near-miss names, dump()-then-parse agreement - after '
         'every step in 35% of the histories and after ~55% of the steps otherwise, always at the end; forced shapes: query '
         'on a document without Files paragraph then add then query, sole first Files paragraph + License paragraphs + '
-        'overlapping add, runs of 2..3 adds, adds to parsed documents ending in License paragraphs).  A (pattern list, name) evaluation is non-trivial when every pattern is legal, the list has '
+        'overlapping add, runs of 2..3 adds, adds to parsed documents ending in License paragraphs); '
+        'DOCUMENTS BUILT INCREMENTALLY WITH SHARED LICENSE SHORT NAMES (start: Copyright() 45% / a parsed document with 0..4 paragraphs, '
+        'Files and stand-alone License paragraphs in any order, 9 source kinds, 25% strict=False; then 3..8, thorough 3..10, '
+        'add_files_paragraph / add_license_paragraph calls; 2..3 short names per case out of 18 realistic ones (GPL-2+, Expat, '
+        '"GPL-2+ or Expat", "GPL-2+ with OpenSSL exception", gpl-2+, ...) + fresh ones; the short name of each new paragraph chosen by '
+        'relation to the document at that point - that of an earlier Files paragraph / of an earlier stand-alone License paragraph '
+        '(the same License short name twice, 40% with the identical text) / of both / not in the document, weights 3 (Files add: 2) : 3 : '
+        '2 : 2 among those available; shapes 2/7 License paragraphs before any Files paragraph then Files paragraphs under their short '
+        'names, 2/7 Files -> License under its short name -> later Files under it -> the License short name again, 3/7 random; '
+        '50% of the new pattern lists overlap an earlier one; 50% of the Files paragraphs sharing a short name also share the '
+        'Copyright text; 30% carry the license text inline; 20% of the headers carry one of the short names; after the start and '
+        'after EVERY add: the three listings, find_files_paragraph for 3..7 near-miss names, dump() - returned / to a file object - '
+        'then parse with the default and with strict=False through 6 source kinds).  '
+        'A (pattern list, name) evaluation is non-trivial when every pattern is legal, the list has '
         '>= 2 patterns or contains a wildcard, and the name is within edit distance 2 of a name the list matches '
         '(near miss or hit, not noise).')
 ASSUMPTIONS = ['vp.models.globmatch is a faithful model of the copyright-format 1.0 glob dialect as restated in the property '
@@ -318,7 +363,36 @@ ASSUMPTIONS = ['vp.models.globmatch is a faithful model of the copyright-format 
                'paragraph as the live document and as the model), not by comparing field texts (that is C17); with an illegal '
                'escape anywhere in the document live and re-parsed answers are not compared (either accepted outcome may occur); '
                '(e) inside one history a (paragraph, pattern list, name) triple is judged through matches() once, later steps '
-               'observe it through find_files_paragraph only']
+               'observe it through find_files_paragraph only',
+               'incremental builds with shared license short names: the format lets any number of Files paragraphs name one license '
+               'short name and defines a stand-alone License paragraph as the place where the text of such a short name stands; '
+               'Copyright documents "a list of additional Files or License paragraphs", add_files_paragraph "Adds a FilesParagraph ... '
+               'inserted directly after the last FilesParagraph", add_license_paragraph "Adds a LicenceParagraph ... inserted after '
+               'any other paragraphs", all_files_paragraphs / all_license_paragraphs "an iterator over the contained" paragraphs - '
+               'nothing makes an add conditional on License fields, so an add is taken to add exactly the paragraph given and to '
+               'leave every other paragraph in the document, in its place; "the last Files paragraph in the document that matches" '
+               '(the property) ranges over ALL Files paragraphs added or parsed so far.  Two stand-alone License paragraphs under '
+               'one short name (even with the identical text) are accepted by the library on the unchanged tree, through the API and '
+               'through the parser, strict and non-strict; whether such a document is good style is not judged',
+               'incremental builds, guards: (a) paragraphs are identified by the unique id in their Comment field, never by identity '
+               '(not demanded), Copyright or License text (shared on purpose); (b) what is demanded after an add: every id listed '
+               'before is still listed, in the same relative order, the new id exactly once, no files tuple changed, a new Files '
+               'paragraph behind every earlier FILES paragraph, all_files_paragraphs() / all_license_paragraphs() = the Files / License '
+               'paragraphs of all_paragraphs() in its order, header first.  NOT demanded (counted as incr:note:*, shown in '
+               'incr_notes, the model adopts what the library did): where a new Files paragraph stands relative to stand-alone '
+               'License paragraphs, where the first Files paragraph of a License-only document goes, a License paragraph that is '
+               'not put at the very end, a changed License / Copyright TEXT of a paragraph (no resolution depends on them); '
+               '(c) a parsed start that does not show what was written (or is rejected) is reported only if the CONTROL document - '
+               'same paragraphs, same source kind, same `strict`, every license short name made unique - does parse to what was '
+               'written (key ...-with-shared-license-short-name-...); otherwise harness sanity (inconclusive / the ordinary '
+               'unexpected-exception path) as for every parsed document; (d) dump()-then-parse is compared with the LIVE listing just '
+               'judged: same Files paragraphs (id and files tuple - patterns of this class are short and whitespace-free, so the '
+               'tuple has one spelling), same License paragraph ids, same find_files_paragraph result per name as the live document '
+               'and the model; License / Copyright texts and the position relative to License paragraphs are notes (texts are C17); '
+               'the strict=False parse is judged like the default one and gets the key suffix /parsed-with-strict=False when the '
+               'default parse of the same text held; with an illegal escape in the document (3% of the cases) re-parsed and live '
+               'answers are not compared; (e) FilesParagraph.create() not returning the list given is harness sanity here (judged '
+               'by the other classes); (f) the case stops at its first violation']
 ANCHORS = ['debian.copyright:globs_to_re',
            'debian.copyright:FilesParagraph.files_pattern',
            'debian.copyright:FilesParagraph.matches',
@@ -3869,11 +3943,76 @@ for _t, _d in _R7_FLOORS.items():
     FLOORS[_t]['monitors'].update(_d['M'])
     FLOORS[_t]['counters'].update(_d['C'])
 
+# Round-8 class: documents built INCREMENTALLY through the Copyright API with SHARED license short names ('incr:*', 'incr-find:*',
+# 'op:incr-*', M.incr.*): floors per (operation x relation of the new short name to the document), per start kind, per re-parse
+# setting.  ~50% of the measured values (quick: minimum over seeds 0-3; thorough: seed 0).  A run that never adds a License
+# paragraph under the short name of an earlier Files / License paragraph (or a Files paragraph under that of an earlier License /
+# Files paragraph), never adds License paragraphs before the first Files paragraph, or never re-parses the dump with and without
+# `strict`, is INCONCLUSIVE, not held.  'Q-LOWERED': the quick sizes of para / hist / doc / build were trimmed by 5..8% to pay for
+# the class; the floors those sizes feed were re-measured (same rule).
+_R8_FLOORS = {
+    'quick': {
+        'M': {
+            'M.incr.find': 10000, 'M.incr.reparse': 3700, 'M.incr.reparse.find': 21000, 'M.incr.start': 180,
+            'M.incr.step': 1600},
+        'C': {
+            'incr-find:last-of-several-matching-files-paragraphs-under-one-short-name': 1100,
+            'incr-find:none-matches': 4400, 'incr-find:one-paragraph-matches': 3300,
+            'incr-find:resolves-to-files-paragraph-added-behind-license-paragraphs-of-a-files-less-document': 1000,
+            'incr-find:resolves-to-files-paragraph-whose-short-name-a-license-paragraph-carries': 4100,
+            'incr-find:several-paragraphs-match': 2600, 'incr:add-files/first-files-paragraph': 65,
+            'incr:add-files/first-files-paragraph-behind-license-paragraphs': 120,
+            'incr:add-files/same-copyright-and-short-name-as-earlier-files-paragraph': 140,
+            'incr:add-files/short-name-not-in-document': 250,
+            'incr:add-files/short-name-of-earlier-files-and-license-paragraphs': 290,
+            'incr:add-files/short-name-of-earlier-files-paragraph': 68,
+            'incr:add-files/short-name-of-earlier-license-paragraph': 180,
+            'incr:add-files/short-name-of-license-paragraph-added-before-any-files-paragraph': 190,
+            'incr:add-license/before-any-files-paragraph': 260,
+            'incr:add-license/before-any-files-paragraph/short-name-of-earlier-license-paragraph': 110,
+            'incr:add-license/identical-license-as-earlier-license-paragraph': 140,
+            'incr:add-license/short-name-not-in-document': 290,
+            'incr:add-license/short-name-of-earlier-files-and-license-paragraphs': 210,
+            'incr:add-license/short-name-of-earlier-files-paragraph': 140,
+            'incr:add-license/short-name-of-earlier-license-paragraph': 160,
+            'incr:find-on-document-without-files-paragraph': 1700,
+            'incr:first-files-paragraph-added-to-license-only-document': 120, 'incr:histories': 350,
+            'incr:reparse-strict': 1800, 'incr:reparse-strict=False': 1800, 'incr:start-empty': 140,
+            'incr:start-parsed': 180, 'incr:start-parsed-with-shared-short-name': 93,
+            'incr:start-parsed-with-strict=False': 42, 'op:incr-add-files': 810, 'op:incr-add-license': 830},
+        'Q-LOWERED': {
+            'M': {'M.ws-build.order': 270, 'M.build.reparse': 9100, 'M.build.find': 59000, 'M.build.order': 9400, 'M.find': 34000},
+            'C': {'ws-build:find-on-history-from-start-with-whitespace-only-separators': 6500, 'ws-build:documents': 270,
+                  'op:build-files-assign': 1500, 'build:histories': 2300, 'build-find:several-paragraphs-match': 17000,
+                  'op:build-add-files': 8700, 'op:find-build-reparsed': 55000,
+                  'build:first-files-paragraph-added-to-license-only-document': 400,
+                  'ws-build:documents-parsed-with-strict=False': 88, 'find:several-paragraphs-match': 6500,
+                  'build:find-resolves-to-overlapping-paragraph-added-behind-sole-first-files-and-licenses': 2800,
+                  'build:find-on-document-without-files-paragraph': 7400,
+                  'build:find-hit-after-query-on-document-without-files-paragraph': 12000,
+                  'build:find-resolves-into-run-of-2+-adds': 7300, 'op:find-after-reassign': 10000,
+                  'build:find-resolves-to-paragraph-added-to-parsed-document-ending-in-license': 11000,
+                  'op:build-add-license': 1800},
+            'nontrivial': 330000},
+    },
+    'thorough': {
+        'M': {},
+        'C': {},
+    },
+}
+for _t, _d in _R8_FLOORS.items():
+    FLOORS[_t]['monitors'].update(_d['M'])
+    FLOORS[_t]['counters'].update(_d['C'])
+    if 'Q-LOWERED' in _d:
+        FLOORS[_t]['monitors'].update(_d['Q-LOWERED']['M'])
+        FLOORS[_t]['counters'].update(_d['Q-LOWERED']['C'])
+        FLOORS[_t]['nontrivial'] = _d['Q-LOWERED']['nontrivial']
+
 LEVEL_TEXT = ('Runtime monitoring: seeded hostile pattern lists and near-miss names (literal expansions of the patterns with '
               '0..2 single-character edits), bounded-exhaustive sweeps of small pattern/name spaces, parsed and built '
               'documents with several Files paragraphs (also with whitespace-only separators, with comment lines and handed over '
               'as bytes), paragraphs built with long lists and with patterns that start with "." or "/", and histories of `files` '
-              're-assignments are pushed through the live '
+              're-assignments, and documents built add by add with shared license short names are pushed through the live '
               'FilesParagraph.matches / Copyright.find_files_paragraph; every answer is compared with an independent glob '
               'matcher (whole-name, * crosses "/", ? exactly one character, only \\\\ \\* \\? escapes) and with the "last '
               'matching paragraph or None" rule.  Held-on-observed, not a proof: reach is the generated set.')
